@@ -656,6 +656,15 @@ def effective_callers(fx, cg, did, roots, depth=3):
     def up(d, k):
         for c in cg.callers_of(d):
             p = cg.path[c]
+            if "::{closure#" in p:
+                # a closure calls on behalf of the function it is written in
+                parent = p.split("::{closure#", 1)[0]
+                pd = [x for x in cg.dids_of(parent)] if hasattr(cg, "dids_of") else []
+                if parent in roots or not pd:
+                    out.add(parent)
+                    continue
+                c = pd[0]
+                p = parent
             hb = fx.hir_by_did.get(c)
             private = hb is not None and hb.get("vis") not in ("Public",) and hb.get("dk") in ("Fn", "AssocFn") and not hb.get("from_expansion")
             if p in roots or not private or k == 0 or c in seen:
